@@ -63,9 +63,13 @@ type BatchResult struct {
 	WallS         float64            `json:"wall_s"`
 	TimedOut      bool               `json:"timed_out,omitempty"`
 	Extra         map[string]float64 `json:"extra,omitempty"`
+	RunHashes     map[string]string  `json:"run_hashes,omitempty"` // determinism proof: run index -> hash of everything observed
 
-	fpSet  map[uint64]bool
-	keySet map[uint64]bool
+	curRun  uint64
+	curHash uint64
+	trace   bool
+	fpSet   map[uint64]bool
+	keySet  map[uint64]bool
 }
 
 func newBatch(engine, prop string, seed uint64, shard int) *BatchResult {
@@ -78,8 +82,28 @@ func newBatch(engine, prop string, seed uint64, shard int) *BatchResult {
 	}
 }
 
+func (b *BatchResult) mix(x uint64) {
+	b.curHash ^= x + 0x9e3779b97f4a7c15 + (b.curHash << 6) + (b.curHash >> 2)
+}
+
+func (b *BatchResult) beginRun(run uint64) {
+	b.curRun, b.curHash = run, 0
+}
+
+func (b *BatchResult) endRun() {
+	if b.trace {
+		if b.RunHashes == nil {
+			b.RunHashes = map[string]string{}
+		}
+		b.RunHashes[fmt.Sprint(b.curRun)] = fpString(b.curHash)
+	}
+}
+
 func (b *BatchResult) addStats(st simrt.Stats, nontrivial bool) {
 	b.Evaluations++
+	b.mix(st.Fingerprint)
+	b.mix(uint64(st.Draws))
+	b.mix(uint64(st.Steps))
 	fired := int64(0)
 	for k, v := range st.Faults {
 		b.Faults[k] += v
@@ -103,6 +127,7 @@ func (b *BatchResult) addStats(st simrt.Stats, nontrivial bool) {
 const maxViolationsKept = 12
 
 func (b *BatchResult) violation(v Violation) {
+	b.mix(hashStr(v.Class + v.Detail))
 	key := v.Property + "/" + v.Class
 	if v.Known != "" {
 		b.KnownHits[v.Known]++
